@@ -11,6 +11,7 @@ from . import refmodel
 CLASSES = [
     "width_direct",
     "width_member",
+    "width_anon_member",
     "width_portref",
     "width_array",
     "missing_conn",
@@ -78,14 +79,18 @@ def width_of(d, mid, x):
     return None
 
 
-def plant(ch, ops, top):
-    """Returns (mutant ops, class, site description) or None."""
+def plant(ch, ops, top, prefer=None):
+    """Returns (mutant ops, class, site description) or None.  `prefer`: classes tried first."""
     d = refmodel.load(ops)
     try:
         hier = refmodel.reachable(d, [top])
     except refmodel.IllFormed:
         return None
-    for cls in ch.shuffle(CLASSES, "c02class"):
+    order = ch.shuffle(CLASSES, "c02class")
+    if prefer:
+        first = ch.shuffle(list(prefer), "c02prefer")
+        order = first + [c for c in order if c not in first]
+    for cls in order:
         fn = globals()["_" + cls]
         for _attempt in range(3):
             r = fn(ch, ops, d, hier, top)
@@ -148,6 +153,22 @@ def _width_member(ch, ops, d, hier, top):
     def make(mid, node, op):
         w = width_of(d, mid, node)
         name, decl = _fresh_sig(ops, mid, w + 1, "wm")
+        return [decl], ["s", name]
+
+    return _replace_live_x(ch, ops, d, hier, pred, make)
+
+
+def _width_anon_member(ch, ops, d, hier, top):
+    """A scalar member of an anonymous bundle / dict connection is one bit too wide (nothing else
+    in the design is wrong; the connecting module may have no bundle of its own)."""
+
+    def pred(op, path, node):
+        # path = (index of the member dict inside the an/d node, member name)
+        return op[4][0] in ("an", "d") and len(path) == 2 and isinstance(path[1], str) and node[0] == "s" and width_of(d, op[1], node) is not None
+
+    def make(mid, node, op):
+        w = width_of(d, mid, node)
+        name, decl = _fresh_sig(ops, mid, w + 1, "wa")
         return [decl], ["s", name]
 
     return _replace_live_x(ch, ops, d, hier, pred, make)
